@@ -2006,3 +2006,36 @@ DEPTH_STREAM_RULE = (" Tags depth:<family>:<layer kind>:<shape> (stypes::run_dep
                      "universal seed has no error-swallowing visitor (the model-level statement is c14_typed_depth_restored).")
 PROPS["C12"]["rule"] += DEPTH_STREAM_RULE
 PROPS["C14"]["rule"] += DEPTH_STREAM_RULE
+
+# ---- generator / oracle upgrades after the fourth round of seeded changes (branch wip-h1): C01-8, C03-8, C11-8, C12-8
+PROPS["C01"]["configs"] = dict(quick=list(PROPS["C01"]["configs"]["quick"]) + ["fr"], thorough=list(PROPS["C01"]["configs"]["thorough"]))
+LONG_NEARMISS_RULE = (" Tag long-nearmiss / long-nearmiss-ok (c01::long_nearmiss; C01, C02): the number grammar on literals whose integer part has left the 64-bit fast path - "
+                      "ten fixed integer parts (19-40 digits, both sides of u64::MAX) and 2 (thorough 6) random ones of 19, 20, 21, 25 and 40 digits, with and without '-', "
+                      "followed by thirty continuations the grammar does not admit (. .e2 .E-3 e e+ e- .5e .5e+ .-1 .+1 .e .E+10 ..5 .5. .5e2. e2e2 e.5 e+-2 ...: a point "
+                      "without a fraction digit, an exponent marker without a digit, a misplaced sign, a second point / exponent) and by twelve it does (the accepted "
+                      "neighbours), bare and in nine array / object / whitespace contexts (quick tier: one random integer part per length, bare and two rotating contexts - one under arbitrary_precision / raw_value).")
+PROPS["C01"]["rule"] += LONG_NEARMISS_RULE + (" Quick tier also under float_roundtrip (parse_long_integer / parse_long_decimal / parse_long_exponent): every number family in "
+                      "full; the generic families are subsampled there (string-literal family skipped, three-token sequences one shard of eight, 1000 documents, 60 random range-band mantissas).")
+PROPS["C02"]["rule"] += LONG_NEARMISS_RULE
+PROPS["C03"]["rule"] += (" Tag serp / disp 'deep' (c03::deep): depth x indent - nests of every depth 1..=44 (thorough 70) in four shapes (sequences only, maps only, alternating with "
+                         "either outermost) around an innermost container of one or two scalars, every third one with a second scalar element after the nested one in each "
+                         "wrapper, serialised compact and pretty with every indent of INDENTS plus four blanks, eight blanks, two tabs (every depth) and 33 blanks (depths 1-3, "
+                         "around every multiple of 16, the deepest), per-write buffers at every eighth depth, and the corresponding Value through {} / {:#} / to_string / "
+                         "to_string_pretty (op disp); quick tier and depths beyond 44: one innermost size per (depth, shape), the fourth shape at every fourth depth.")
+DEPTH_LINES_RULE = (" Tag depth-lines / depth-lines-open / depth-lines-cut / depth-lines-str (c01::depth_lines): nests of 127 / 128 / 129 / 140 containers - arrays only, objects only, "
+                    "alternating with either kind outermost, arrays with a BRACE as 128th opener, objects with a BRACKET as 128th opener - with five kinds of gap (none, newline, "
+                    "blank, CR LF, newline + blanks; in objects also before the key, the colon and the value) between the levels; complete, unclosed, cut directly after the 128th "
+                    "opening bracket and one byte later; after string literals that hold brackets / escaped quotes / an escaped backslash and after closed siblings.")
+PROPS["C11"]["rule"] += DEPTH_LINES_RULE + (" Verdict (Drv/C01.lean judgeDepthPos, also in lcs of Drv/LineCol.lean): a 'recursion limit exceeded' syntax error is no longer exempt from "
+                    "the position check - it must be reported exactly at lineCol(input, i + 1), i the index of the opening bracket ([ or {, outside string literals) that raises "
+                    "the nesting depth to 128, found by the lexical scan Spec.Pos.depthOpener (lean/SJ/Spec/PosDepth.lean; independent of the parser model and of Spec.Pos.scanValue; "
+                    "kernel-checked examples beside it). Tag lcs:deep (linecol.rs): 108 streams whose second / third / only item nests 127-129 deep (brackets, braces, a brace as 128th "
+                    "opener, alternating; levels on one line, on their own lines, CR LF + blank) followed by another item - the error item sits at the 128th opener of ITS item.")
+PROPS["C09"]["rule"] += DEPTH_LINES_RULE
+PROPS["C14"]["rule"] += " Tag depth-lines (c01::depth_lines) as in C11."
+PROPS["C12"]["configs"] = dict(quick=list(PROPS["C12"]["configs"]["quick"]) + ["ud"], thorough=list(PROPS["C12"]["configs"]["thorough"]) + ["ud"])
+PROPS["C12"]["rule"] += (" Tag deep-stream (c12::deep_streams, op stream): streams whose items nest 127 / 128 / 129 deep (configuration ud also 200 / 1000) - brackets, braces, "
+                         "alternating - alone, between two scalars, and two deep items in a row followed by null, Value and IgnoredAny items, str / slice / reader; with the limit "
+                         "in force, and in configuration ud (feature unbounded_depth, now in both tiers) also after Deserializer::disable_recursion_limit() on the Deserializer that "
+                         "into_iter() turns into the stream (configuration token ud+nolimit: Model.Stream with limitOff, the grammar history without the depth side condition): the "
+                         "stream yields the deep values and continues.")
